@@ -11,10 +11,17 @@ multiplication code.
   window-NAF `ecMulA` / `ecAddMulA` run over the function table of `ecpCreateJ` on reduced naturals
   (`ecOps (mkCurve (natFld p) A B)`, what `drv_c06` executes), for every word size W and length m.
 * `g12_verify_exact_curve`, `b96_sign_complete_curve`: end-to-end statements without group-law hypotheses.
+* binary curves (dstu): `mathlib_DLaws`, `mathlib_DCurveLaws` for Mathlib's group of y² + xy = x³ + A x² + B over a
+  field of characteristic 2 (`mathlibDstu`), bridges `…_bridgeB` to `ecMulA` / `ecAddMulA` over the table of
+  `ec2CreateLD` (C06 stage 2: over the field itself — C06 has no simulation theorem for the word-level gf2
+  arithmetic), and `subgroup_trace_curve` / `subgroup_recover_compress_curve`: the theorems of PropsDstuSub
+  with `DCurveLaws` DISCHARGED.
 -/
 import Bee2V.C16.LemmasC06
 import Bee2V.C16.PropsG12
 import Bee2V.C16.PropsB96
+import Bee2V.C16.PropsDstuSub
+import Bee2V.C16.PropsDstuSig
 namespace Bee2V.C16
 open WeierstrassCurve Bee2V.C06
 
@@ -200,6 +207,116 @@ theorem g12_keygen_curve (l no : Nat) {xG yG : Nat}
 
 end bridge
 
+/-! ### B4. binary curves: the group part of `DLaws` and `DCurveLaws` for the real group -/
+
+section binaryB
+variable {F : Type} [Field F] [DecidableEq F] (f : FOps F) (A : Bool) (B : F) (n : Nat)
+  (base : (Wb (bitF F A) B).Point)
+
+/-- of `DLaws` only "n is a prime > 2 and the order of the base point" and the clauses about the octet code
+remain (the latter follow from `FLaws f`) -/
+theorem mathlib_DLaws (hn : Nat.Prime n) (hord : ∀ k : Nat, k • base = 0 ↔ n ∣ k) (hn2 : 2 < n)
+    (henc : ∀ x : F, f.ofNat (f.toNat x) = some x) (hlt : ∀ x : F, f.toNat x < 2 ^ f.m) (hm : 0 < f.m) :
+    DLaws (mathlibDstu f A B n base) :=
+  Br.dLaws hn hord hn2 henc hlt hm
+
+/-- `DCurveLaws` (LemmasDstuSub.lean) holds for the real curve: the equation is the definition of the points
+and the doubling formula is Mathlib's tangent addition (C06 `addB_tangent`) -/
+theorem mathlib_DCurveLaws [CharP F 2] (hodd : n % 2 = 1) : DCurveLaws (mathlibDstu f A B n base) :=
+  Br.dCurveLaws hodd
+
+/-- `ecMulA` over the table of `ec2CreateLD` returns `xy (d • P)` of the dstu context -/
+theorem c06_ecMulA_bridgeB [CharP F 2] {P : (Wb (bitF F A) B).Point} {x y : F}
+    (hP : (mathlibDstu f A B n base).xy P = some (x, y)) (W m d : Nat) :
+    ecMulA (ecOps2 (curveB (bitF F A) B)) W (x, y) d m =
+      (mathlibDstu f A B n base).xy ((mathlibDstu f A B n base).smul d P) := by
+  have h := ecMulA_curveB (Br.repB_of_xy hP) W m d
+  exact Br.resultB_eq h.1 h.2
+
+/-- `Dstu.hasOrder` (dstuPointVal, dstuPointGen) IS the library's `ecHasOrderA(P, ec, ec->order, m)` -/
+theorem c06_ecHasOrderA_bridgeB [CharP F 2] {P : (Wb (bitF F A) B).Point} {x y : F}
+    (hP : (mathlibDstu f A B n base).xy P = some (x, y)) (W m : Nat) :
+    ecHasOrderA (ecOps2 (curveB (bitF F A) B)) W (x, y) n m = (mathlibDstu f A B n base).hasOrder P := by
+  unfold ecHasOrderA Dstu.hasOrder
+  rw [c06_ecMulA_bridgeB f A B n base hP]
+  rfl
+
+/-- `ecAddMulA(.., 2, P, s, Q, r)` is `xy (s • P + r • Q)` of the dstu context (dstuVerify) -/
+theorem c06_ecAddMulA2_bridgeB [CharP F 2] {G Q : (Wb (bitF F A) B).Point} {xG yG xQ yQ : F}
+    (hG : (mathlibDstu f A B n base).xy G = some (xG, yG))
+    (hQ : (mathlibDstu f A B n base).xy Q = some (xQ, yQ)) (W a b : Nat) :
+    ecAddMulA (ecOps2 (curveB (bitF F A) B)) W [((xG, yG), a), ((xQ, yQ), b)] =
+      (mathlibDstu f A B n base).xy
+        ((mathlibDstu f A B n base).add ((mathlibDstu f A B n base).smul a G)
+          ((mathlibDstu f A B n base).smul b Q)) := by
+  have h := ecAddMulA_curveB [((xG, yG), a), ((xQ, yQ), b)] [G, Q]
+    (List.Forall₂.cons (Br.repB_of_xy hG) (List.Forall₂.cons (Br.repB_of_xy hQ) List.Forall₂.nil)) W
+  simp only [List.zipWith_cons_cons, List.zipWith_nil_right, List.sum_cons, List.sum_nil, add_zero] at h
+  exact Br.resultB_eq h.1 h.2
+
+/-- A1 for the REAL group of the binary curve: every point of the subgroup generated by the base point of prime
+order n > 2 (indeed every point killed by n) has Tr(x) = A.  No hypothesis about the curve is left:
+`FLaws f` says that `f` computes in the field F = GF(2^m), m odd. -/
+theorem subgroup_trace_curve [CharP F 2] (FL : FLaws f) (hn : Nat.Prime n) (hn2 : 2 < n)
+    (hord : ∀ k : Nat, k • base = 0 ↔ n ∣ k) (P : (Wb (bitF F A) B).Point) (x y : F)
+    (hP : n • P = 0) (hxy : (mathlibDstu f A B n base).xy P = some (x, y)) :
+    f.tr x = A :=
+  subgroup_trace (mathlibDstu f A B n base)
+    (mathlib_DLaws f A B n base hn hord hn2 FL.enc_dec FL.toNat_lt (by have := FL.m_odd; omega)) FL
+    (mathlib_DCurveLaws f A B n base (by rcases hn.eq_two_or_odd with h | h <;> omega)) P x y hP hxy
+
+/-- A2 for the real group: Recover ∘ Compress on the points of the subgroup -/
+theorem subgroup_recover_compress_curve [CharP F 2] (FL : FLaws f) (hn : Nat.Prime n) (hn2 : 2 < n)
+    (hord : ∀ k : Nat, k • base = 0 ↔ n ∣ k) (P : (Wb (bitF F A) B).Point) (x y : F)
+    (hP : n • P = 0) (hxy : (mathlibDstu f A B n base).xy P = some (x, y)) :
+    (x = 1 ∧ f.tr y = false ∧
+      (mathlibDstu f A B n base).compress ((mathlibDstu f A B n base).encXY (x, y)) = (.badPoint, [])) ∨
+    (∃ xp, (mathlibDstu f A B n base).compress ((mathlibDstu f A B n base).encXY (x, y)) = (.ok, xp) ∧
+      xp.length = (mathlibDstu f A B n base).no ∧
+      (mathlibDstu f A B n base).recover xp = (.ok, (mathlibDstu f A B n base).encXY (x, y))) :=
+  subgroup_recover_compress (mathlibDstu f A B n base)
+    (mathlib_DLaws f A B n base hn hord hn2 FL.enc_dec FL.toNat_lt (by have := FL.m_odd; omega)) FL
+    (mathlib_DCurveLaws f A B n base (by rcases hn.eq_two_or_odd with h | h <;> omega)) P x y hP hxy
+
+/-- the acceptance set of dstuVerify on the real binary curve in terms of the library's `ecAddMulA`: no
+hypothesis about the group beyond "n is a prime > 2 and the order of the base point" -/
+theorem dstu_verify_exact_curve [CharP F 2] (FL : FLaws f) (hn : Nat.Prime n) (hn2 : 2 < n)
+    (hord : ∀ k : Nat, k • base = 0 ↔ n ∣ k) {xG yG : F}
+    (hG : (mathlibDstu f A B n base).xy base = some (xG, yG)) (W ld : Nat) (Hb sig pub : Bytes) :
+    (mathlibDstu f A B n base).verify ld Hb sig pub = .ok ↔
+      ld % 16 = 0 ∧ 16 * (mathlibDstu f A B n base).oo ≤ ld ∧
+      ∃ xq yq h, (mathlibDstu f A B n base).loadXY pub = some (xq, yq) ∧
+        (Wb (bitF F A) B).Nonsingular xq yq ∧ (mathlibDstu f A B n base).hashF Hb = some h ∧
+        (∀ b ∈ (sig.take (ld / 16)).drop (mathlibDstu f A B n base).oo, b = 0) ∧
+        (∀ b ∈ (sig.drop (ld / 16)).drop (mathlibDstu f A B n base).oo, b = 0) ∧
+        0 < leNat (sig.take (mathlibDstu f A B n base).oo) ∧
+        leNat (sig.take (mathlibDstu f A B n base).oo) < n ∧
+        0 < leNat ((sig.drop (ld / 16)).take (mathlibDstu f A B n base).oo) ∧
+        leNat ((sig.drop (ld / 16)).take (mathlibDstu f A B n base).oo) < n ∧
+        ∃ x y, ecAddMulA (ecOps2 (curveB (bitF F A) B)) W
+            [((xG, yG), leNat ((sig.drop (ld / 16)).take (mathlibDstu f A B n base).oo)),
+             ((xq, yq), leNat (sig.take (mathlibDstu f A B n base).oo))] = some (x, y) ∧
+          leNat (sig.take (mathlibDstu f A B n base).oo) = (mathlibDstu f A B n base).truncR h x := by
+  rw [dstu_verify_exact
+    (mathlib_DLaws f A B n base hn hord hn2 FL.enc_dec FL.toNat_lt (by have := FL.m_odd; omega))]
+  constructor
+  · rintro ⟨h1, h2, xq, yq, Q, h, hl, hQ, hh, hp1, hp2, hr0, hr, hs0, hs, x, y, hxy, hx⟩
+    have hQxy := Br.xyB_ofXY _ _ _ hQ
+    obtain ⟨hns, -⟩ := Br.repB_of_xy hQxy
+    refine ⟨h1, h2, xq, yq, h, hl, hns, hh, hp1, hp2, hr0, hr, hs0, hs, x, y, ?_, hx⟩
+    rw [c06_ecAddMulA2_bridgeB f A B n base hG hQxy]
+    exact hxy
+  · rintro ⟨h1, h2, xq, yq, h, hl, hns, hh, hp1, hp2, hr0, hr, hs0, hs, x, y, hxy, hx⟩
+    have hQ : (mathlibDstu f A B n base).ofXY xq yq = some (Affine.Point.some _ _ hns) := by
+      show curveBOfXY (bitF F A) B xq yq = _
+      unfold curveBOfXY
+      rw [dif_pos hns]
+    refine ⟨h1, h2, xq, yq, _, h, hl, hQ, hh, hp1, hp2, hr0, hr, hs0, hs, x, y, ?_, hx⟩
+    rw [c06_ecAddMulA2_bridgeB f A B n base hG (Br.xyB_ofXY _ _ _ hQ)] at hxy
+    exact hxy
+
+end binaryB
+
 /-! ### non-vacuity: y² = x³ + x + 1 over `ZMod 23` (28 points), G = 4·(3, 10) = (17, 3) of order q = 7
 
 `Br.toyG_order` (LemmasC06.lean) obtains "7 • G = O" from C06's `ecHasOrderA_nat` and one evaluation of the
@@ -254,6 +371,34 @@ example : (mathlibG12 23 _ _ 7 Br.toyG 8 1).verify [1] [3, 4] [5, 4] ≠ .ok := 
   revert hx
   decide
 
+/-- `mathlib_B96Laws` / `b96_sign_complete_curve`: a joint instance would need a curve with a 192-bit prime-order
+base point (bign96 fixes the size of q) together with a primality proof of its 192-bit p; the hypotheses are
+shown satisfiable SEPARATELY: the group hypotheses (q prime, q the order of the base point of a real curve) by
+the toy curve above, the size hypotheses by the 192-bit prime of ToySig.lean -/
+example : (Nat.Prime 7 ∧ ∀ n : Nat, n • Br.toyG = 0 ↔ 7 ∣ n) ∧
+    (Nat.Prime ToySig.toyB96.q ∧ 2 ^ 191 < ToySig.toyB96.q ∧ ToySig.toyB96.q < 2 ^ 192 ∧
+      ∀ m, (ToySig.toyB96.hash m).length = 32) :=
+  ⟨⟨by decide, Br.toyG_order⟩, ToySig.toyB96Laws.q_prime, ToySig.toyB96Laws.q_lo, ToySig.toyB96Laws.q_hi,
+    ToySig.toyB96Laws.hash_len⟩
+
 end toy
+
+/-! ### non-vacuity (binary): y² + xy = x³ + x² + 1 over GF(8), base point (3, 3) of order 7 in MATHLIB's group -/
+
+example : DLaws (mathlibDstu Fld.gf8Ops true 1 7 Br.gf8P) ∧ DCurveLaws (mathlibDstu Fld.gf8Ops true 1 7 Br.gf8P) :=
+  ⟨mathlib_DLaws _ _ _ _ _ (by decide) Br.gf8P_order (by decide) Fld.gf8_laws.enc_dec Fld.gf8_laws.toNat_lt
+    (by decide), mathlib_DCurveLaws _ _ _ _ _ rfl⟩
+
+/-- 2 • (3, 3) = (7, 7) by the bridge and a run of the `ecMulA` model; `subgroup_trace_curve` applies to it -/
+example : (mathlibDstu Fld.gf8Ops true 1 7 Br.gf8P).xy ((2 : Nat) • Br.gf8P) = some (⟨7⟩, ⟨7⟩) ∧
+    Fld.gf8Ops.tr (⟨7⟩ : Fld.GF8) = true := by
+  have hxy : (mathlibDstu Fld.gf8Ops true 1 7 Br.gf8P).xy ((2 : Nat) • Br.gf8P) = some (⟨7⟩, ⟨7⟩) := by
+    have := c06_ecMulA_bridgeB Fld.gf8Ops true 1 7 Br.gf8P (P := Br.gf8P) (x := ⟨3⟩) (y := ⟨3⟩) rfl 64 1 2
+    rw [show (mathlibDstu Fld.gf8Ops true 1 7 Br.gf8P).smul 2 Br.gf8P = (2 : Nat) • Br.gf8P from rfl] at this
+    rw [← this]
+    decide +kernel
+  refine ⟨hxy, subgroup_trace_curve Fld.gf8Ops true 1 7 Br.gf8P Fld.gf8_laws (by decide) (by decide)
+    Br.gf8P_order _ _ _ ?_ hxy⟩
+  rw [← mul_nsmul, (Br.gf8P_order _).2 (by decide)]
 
 end Bee2V.C16
